@@ -40,8 +40,12 @@ import Pog.Lemmas.ParserFaithful
                                                    limit and the fuel ⇒ no error, every name faithful.
   `parse_faithful_partial2` (Pog/Props/C02b.lean, proofs in Pog/Lemmas/ParserFaithful2.lean) extends the fragment to `Simple2`:
   properties that are arrays or maps of a primitive / of a `$ref`, and top-level arrays and primitive aliases.
-  Still missing between `parse_faithful_partial2` and the target fragment ("acyclic, no heuristic names, depth ≤
-  max"): inline objects with properties, nested arrays, enums and allOf/oneOf/anyOf as property or top-level nodes.  The
+  `parse_faithful_partial3` (Pog/Props/C02c.lean, proofs in Pog/Lemmas/ParserFaithful3*.lean) extends it to `Simple3`: acyclic
+  allOf inheritance (members `$ref`s or inline objects), inline object properties, enum properties / schemas / items / map values,
+  `nullable` around every property node.  Four side-condition counterexamples, one of them a new defect (F70: two promoted
+  properties with one synthetic name).
+  Still missing between `parse_faithful_partial3` and the target fragment ("acyclic, no heuristic names, depth ≤
+  max"): own `properties` next to `allOf`, nested inline objects / arrays, oneOf / anyOf.  The
   no-prefix / no-`Item` / no-`Property` side conditions turned out to be unnecessary WITHOUT cycles (the
   heuristics only fire on a detected cycle); what IS needed is class-cased names (else the registry key
   differs from the name the tracker knows, and every second reference re-parses the schema).
@@ -54,6 +58,8 @@ import Pog.Lemmas.ParserFaithful
                                            represented, no duplicates, first-occurrence document order (no unordered container)
 -/
 -- MODULE Pog.Props.C02b
+-- MODULE Pog.Props.C02c
+-- INDEX Pog.C02c: simple2_imp_simple3, inFragment2_imp_inFragment3, parse_faithful_partial3, inFragment3_sound, petDecls_simple3, simple3_strict, parse_faithful_enum_ctx_shared_counterexample, parse_faithful_enum_ctx_dup_counterexample, parse_faithful_enum_ctx_declared_counterexample, parse_faithful_enum_depth_counterexample
 -- INDEX Pog.C02b: simple_imp_simple2, parse_faithful_partial2, inFragment2_sound, invDecls_simple2, simple2_strict, parse_faithful_map_ctx_counterexample, parse_faithful_map_depth_counterexample
 -- INDEX Pog.ResolveProps: resolve_optional_iff_not_required, union_members_nodup_and_cover, dispatch_union
 /-
